@@ -134,7 +134,9 @@ class State(metaclass=StateMeta):
                 type_arguments = (argument,)
 
         if any(
-            isinstance(argument, TypeVar) or getattr(argument, "__parameters__", None)  # pyright: ignore[reportUnnecessaryIsInstance]
+            isinstance(argument, TypeVar)  # pyright: ignore[reportUnnecessaryIsInstance]
+            # not specialized generic class used as an argument is a finished type
+            or (not isinstance(argument, type) and getattr(argument, "__parameters__", None))
             for argument in type_arguments
         ):
             # if we got unfinished type (also nested within an argument)
